@@ -19,7 +19,8 @@ THEOREMS = ["C01_sem_binop_left_error", "C01_sem_binop_right_error", "C01_sem_bi
             "C01_simple_sessions_partial", "C01_sem_statement", "C01_statement_compiled", "C01_statement_run",
             "C01_statement_run_file_mode", "C01_statement_sessions_partial", "C01_statement_worlds_related",
             "C01_statement_sem_vs_vm", "C01_body_expression_compiled", "C01_sem_body_expression",
-            "C01_user_call_compiled"]
+            "C01_user_call_compiled", "C01_definition_compiled_and_run", "C01_definition_extends_the_table",
+            "C01_sem_definition", "C01_sessions_with_definitions_partial"]
 
 CORPUS = [
     # witnesses of defects repaired in /repo (they stay in the corpus)
@@ -91,7 +92,9 @@ def run(tier, seed):
                        "it is decided by differential testing against two Coq artefacts: coq/Sem.v (definitional semantics, "
                        "whose rules are proved to be the documented ones: %d theorems) and the compiler/VM model. "
                        "%d sessions (%d statements) were run on the real code and evaluated in Coq on both. "
-                       "For the while-language over globals with calls of the built-ins write/toa/aton/read and their I/O the property IS proved on the models (C01_statement_sessions_partial, C01_statement_sem_vs_vm); "
+                       "For the while-language over globals with calls of the built-ins write/toa/aton/read and their I/O, definitions of "
+                       "functions whose body is a pure expression of the parameters and globals, and calls of those functions, the "
+                       "property IS proved on the models (C01_sessions_with_definitions_partial, C01_statement_sem_vs_vm); "
                        "%d further sessions of that fragment were run in value mode and file mode, and Coq evaluated the theorems' "
                        "premises on the parsed trees: %d of %d trees of those sessions and %d of %d trees of the general sessions "
                        "lie inside the proven fragment." %
@@ -111,9 +114,11 @@ def run(tier, seed):
     run.assumptions = ["sessions that trigger the model's staleness events are attributed to the open findings K1/K2 only "
                        "when the implementation disagrees with the semantics on them",
                        "the session theorems for calls carry the premise that the code of the built-ins and of the user functions "
-                       "lies at their entry points (bcode): it is discharged by computation for the machines of PropC01.v's examples "
-                       "(C01_builtin_premises_hold, C01_user_function_premises_hold); for the generated sessions the 'inside the proven "
-                       "fragment' count takes it from the shape of the definitions (f = (params) -> pure expression, not rebound)"]
+                       "lies at their entry points (bcode): for the user functions it is PROVED from the definition itself "
+                       "(C01_definition_extends_the_table: running f = (params) -> pure expression leaves a machine that meets it under "
+                       "the table with one more entry), for the built-ins it is discharged by computation on the machine after "
+                       "builtin.Load (C01_builtin_premises_hold, C01_builtin_machine_is_at_top_level); the 'inside the proven fragment' "
+                       "count evaluates the premises of C01_sessions_with_definitions_partial on every parsed tree"]
     return run.finish()
 
 
